@@ -1077,6 +1077,8 @@ def getitem(a, key):
             if k.elems is None:
                 raise Unsupported("indexing with an untracked index array")
             if not k.is_concrete():
+                if k.ndim == 0 and A.elems is not None:
+                    return _select(A, key, ax, k)
                 raise Unsupported("indexing with a data-dependent index array")
             adv.append((len(groups), ax, k))
             groups.append(("adv", None))
@@ -1144,6 +1146,25 @@ def getitem(a, key):
     else:
         el = [A.elems[o] for o in offs]
     return Arr(out_shape, el, A.dtype, geo)
+
+
+def _select(A, key, ax, k):
+    """x[..., i, ...] with a symbolic scalar index i: each result element is an opaque selection
+    among the candidates along that axis."""
+    cands = []
+    for i in range(A.shape[ax]):
+        key2 = list(key)
+        pos = [j for j, kk in enumerate(key2) if kk is k][0]
+        key2[pos] = i
+        cands.append(getitem(A, tuple(key2)))
+    idx = as_poly(k.elems[0])
+    shape = cands[0].shape
+    if any(c.elems is None for c in cands):
+        return Arr(shape, None, A.dtype)
+    el = []
+    for j in range(prod(shape)):
+        el.append(Poly.fn("select", idx, tuple(as_poly(c.elems[j]).key() for c in cands)))
+    return Arr(shape, el, A.dtype)
 
 
 def setitem(a, key, val):
